@@ -250,6 +250,12 @@ impl<'a> Acc<'a> {
                 std::process::exit(3);
             }
         }
+        if let crate::rt::Verdict::Panic(_, msg) = &ex.outcome.verdict {
+            if msg.contains(" at src/") {
+                eprintln!("HARNESS PANIC: {}\nscenario: {}", msg, serde_json::to_string(sc).unwrap_or_default());
+                std::process::exit(4);
+            }
+        }
         let mut unknown = Vec::new();
         let mut known_hits: Vec<(String, String)> = Vec::new();
         for f in findings {
